@@ -59,7 +59,11 @@ class C14(Prop):
                            C[4, 5] / 2, C[5, 5] / 2]
                     c21 = [float(x) for x in c21]
                     iso = None
-                yield {'kind': 'potency', 'c21': c21, 'iso': iso, 'm': [rng.gauss(0, 1) for _ in range(6)]}
+                pot_i = getattr(self, '_pot_i', 0)
+                self._pot_i = pot_i + 1
+                # the same tensor also as the first column of a batch of 6, 2, 3, 7 or 1 tensors (no generator draws: the other columns are
+                # fixed combinations of the first)
+                yield {'kind': 'potency', 'c21': c21, 'iso': iso, 'm': [rng.gauss(0, 1) for _ in range(6)], 'ncols': (6, 2, 6, 3, 7, 1)[pot_i % 6]}
         # repeated eigenvalues in general orientation (cheap, oracle only): the axes of the repeated pair must still rebuild the tensor
         for i in range(600 if tier == 'quick' else 20000):
             q, _ = np.linalg.qr(np.array([[rng.gauss(0, 1) for _ in range(3)] for _ in range(3)]))
@@ -147,8 +151,21 @@ class C14(Prop):
         m = np.array(case['m'])
         d6 = fl(cv.MT6c_D6(m, c21), np)
         cv6 = np.asarray(cv.c21_cvoigt(c21), dtype=float)
+        # batched conversion: column j is the tensor rotated through its components (a fixed permutation) and scaled by j + 1
+        nc = int(case.get('ncols', 1))
+        cols = [m] + [np.roll(m, j) * (j + 1.0) + np.arange(6) * 0.01 * j for j in range(1, nc)]
+        batch = np.array(cols).T
+        got = np.asarray(cv.MT6c_D6(batch.copy(), c21), dtype=float)
+        dev = None
+        if got.shape != (6, nc):
+            dev = float('inf')
+        else:
+            dev = 0.0
+            for j in range(nc):
+                single = np.asarray(cv.MT6c_D6(cols[j].copy(), c21), dtype=float).flatten()
+                dev = max(dev, float(np.max(np.abs(got[:, j] - single)) / (np.max(np.abs(single)) + 1e-300)))
         return {'c21': c21, 'd6': d6, 'cvoigt': [float(x) for x in cv6.flatten()], 'cnorm': float(cv.c_norm(c21)),
-                'is_iso': bool(cv.is_isotropic_c(c21))}
+                'is_iso': bool(cv.is_isotropic_c(c21)), 'ncols': nc, 'batch_dev': dev}
 
     # ------------------------------------------------------------------ model
     def requests(self, case, impl):
@@ -335,6 +352,9 @@ class C14(Prop):
                 if abs(v - mm[i]) > 1e-8 * sc * (1 + impl['cnorm']):
                     out.append(('potency', 'stiffness times potency tensor does not give back the moment tensor (row %d: %r vs %r)' % (i, v, mm[i]), None))
                     break
+            if impl.get('batch_dev') is not None and impl['batch_dev'] > 1e-9:
+                out.append(('potency-batch', 'a batch of %d tensors converted to potency tensors differs from the column-by-column conversion by %r (relative)'
+                            % (impl['ncols'], impl['batch_dev']), None))
             if (case['iso'] is not None) != impl['is_iso'] and case['iso'] is not None:
                 out.append(('is-isotropic', 'isotropic stiffness not recognised as isotropic', None))
         return out[:3]
